@@ -43,22 +43,30 @@ pub fn scenario(seed: u64, threads: usize, max_operands: usize, max_ops: usize, 
         }
     };
     // Prelude: every thread parses the same small texts first, one per operator table in use
-    // (and always the three SimNum tables, which cost little under Miri). The threads meet at a
+    // (and always one SimNum table: user-code seams). The threads meet at a
     // barrier before each of them, so that the first use of every process-global (the regexes of
     // the parser and of the literal matchers, and anything keyed by operator table) is a race.
     // "sin(x)..cosy": function name followed by a character => RE_VAR_NAME_EXACT, variable => RE_VAR_NAME.
     let mut prelude_kinds: Vec<Kind> = kinds.to_vec();
-    for k in [Kind::Sim, Kind::Sim2, Kind::Sim3] {
+    for k in [Kind::Sim] {
         if !prelude_kinds.contains(&k) {
             prelude_kinds.push(k);
         }
     }
-    for t in w.threads.iter_mut() {
-        for (i, k) in prelude_kinds.iter().enumerate() {
+    // odd scenario seeds: every thread starts at another table, so that different tables are in use
+    // at the same moment (anything that holds ONE table-specific entry gets replaced under readers)
+    let rotate = seed % 2 == 1;
+    for (tid, t) in w.threads.iter_mut().enumerate() {
+        let mut order: Vec<Kind> = prelude_kinds.clone();
+        if rotate {
+            let n = order.len();
+            order.rotate_left(tid % n);
+        }
+        for (i, k) in order.iter().enumerate() {
             let text = match k {
                 Kind::F64 | Kind::F32 => "sin(x)+{y z}*2-cosy",
                 Kind::F64b => "dbl(x)<=2**3*pad05(y)",
-                Kind::Val => "1 if x>0 else [1,2]",
+                Kind::Val | Kind::Val64 => "fact(15) if x>0 else [1,2]",
                 Kind::Bool => "!p&&true||q",
                 Kind::Sim | Kind::Sim2 => "sq(x)**2<=3*TEN-incy",
                 Kind::Sim3 => "tw(x)&&1<<2|negy",
@@ -70,6 +78,23 @@ pub fn scenario(seed: u64, threads: usize, max_operands: usize, max_ops: usize, 
         }
     }
     let n_prelude = prelude_kinds.len();
+    // at most two shared expressions (Miri time), ...
+    if w.shared.len() > 2 {
+        w.shared.truncate(2);
+        for t in w.threads.iter_mut() {
+            for op in t.iter_mut() {
+                match op {
+                    Op::Eval { j, .. }
+                    | Op::Inspect { j }
+                    | Op::Convert { j }
+                    | Op::Derive { j, .. }
+                    | Op::SerdeRoundTrip { j }
+                    | Op::Drop { j } => *j %= 2,
+                    _ => {}
+                }
+            }
+        }
+    }
     // a deep and a flat shared expression are always present ...
     w.shared[0].form = Form::Deep;
     if w.shared.len() < 2 {
@@ -79,12 +104,38 @@ pub fn scenario(seed: u64, threads: usize, max_operands: usize, max_ops: usize, 
     } else {
         w.shared[1].form = Form::Flat;
     }
+    // value type in play: the flat shared expression is an array expression (dot/length/min over
+    // array variables) and is evaluated at array points long enough to cross size thresholds, so
+    // that the array operators of the value type run in several threads at once
+    let val_kind = kinds.iter().copied().find(|k| matches!(k, Kind::Val | Kind::Val64));
+    if let Some(vk) = val_kind {
+        w.shared[1].kind = vk;
+        w.shared[1].text = "(a dot b)+length(a-b)*2-((b dot b) min (a dot a))".to_string();
+        w.shared[1].n_operands = 7;
+        w.shared[1].compile = true;
+        w.shared[1].tower = false;
+    }
     // ... and every thread's first use of the shared expressions is an evaluation of each of
     // them, so that all threads race on the *first* evaluation (lazily initialised state, if any)
     let n_shared = w.shared.len();
     for (tid, t) in w.threads.iter_mut().enumerate() {
         for j in 0..n_shared {
-            t.insert(n_prelude + j, Op::Eval { j, point: 3 + tid as u32, mode: (tid % 2) as u8, delta: 0 });
+            let point = if j == 1 && val_kind.is_some() { [19u32, 20, 22][tid % 3] } else { 3 + tid as u32 };
+            t.insert(n_prelude + j, Op::Eval { j, point, mode: (tid % 2) as u8, delta: 0 });
+        }
+        // ... followed by an operation that clones, converts and drops (Convert) each
+        // shared expression: reference counts or other per-clone bookkeeping, if any, are exercised
+        // by all threads at once
+        let base = n_prelude + n_shared;
+        for j in 0..n_shared {
+            t.insert(base + j, Op::Convert { j });
+        }
+    }
+    // a value-typed shared expression always carries an error-valued constant (an owned message)
+    for s in w.shared.iter_mut() {
+        if s.kind == Kind::Val && !s.text.contains("fact(2.5)") {
+            s.text = format!("({}) else fact(2.5)", s.text);
+            s.n_operands += 1;
         }
     }
     (w, n_prelude)
@@ -140,27 +191,52 @@ fn thread_body(
     obs
 }
 
-pub fn cmd_plain(args: &[String], yield_every: &AtomicU32) -> i32 {
-    let seed = arg_u64(args, "--scenario-seed", 1);
-    let threads = arg_u64(args, "--threads", 2) as usize;
-    let max_operands = arg_u64(args, "--max-operands", 6) as usize;
-    let max_ops = arg_u64(args, "--max-ops", 3) as usize;
-    let late = arg_u64(args, "--late-publish", 1) != 0;
-    let sequential = arg(args, "--mode") == Some("sequential");
-    let kinds: Vec<Kind> = match arg(args, "--kinds") {
-        None => crate::kinds::ALL_KINDS.to_vec(),
-        Some(s) => s
-            .split(',')
-            .map(|k| crate::kinds::kind_from_name(k).unwrap_or_else(|| panic!("unknown kind {k}")))
-            .collect(),
-    };
-    yield_every.store(arg_u64(args, "--yield-every", 0) as u32, Ordering::Relaxed);
-    std::panic::set_hook(Box::new(|_| {}));
-    let (w, n_prelude) = scenario(seed, threads, max_operands, max_ops, &kinds);
-    let w = Arc::new(w);
-    if arg(args, "--print-workload").is_some() {
-        println!("{}", serde_json::to_string(&*w).unwrap());
+/// A later round of the same process: steady state (every global is initialised), new threads and
+/// a *cheap* workload — tiny texts over the three 13-entry `SimNum` tables (no regex-heavy literal
+/// matcher, few operators to build per parse), so that one round costs Miri seconds, not minutes.
+/// The threads begin by parsing with different tables at the same moment (state that holds ONE
+/// table-specific entry is replaced under readers), then evaluate, convert and re-parse one new
+/// shared expression.
+pub fn round_scenario(seed: u64, round: u64, threads: usize) -> (Workload, usize) {
+    let mut r = crate::prng::Rng::new(derive(seed, 9000 + round));
+    let pool = [Kind::Sim, Kind::Sim2, Kind::Sim3];
+    let sk = pool[r.below(3)];
+    let form = if r.chance(1, 2) { Form::Flat } else { Form::Deep };
+    let n_operands = r.range(2, 4);
+    let shared = vec![crate::workload::SharedSpec {
+        kind: sk,
+        form,
+        text: crate::workload::gen_text(&mut r, sk, n_operands),
+        n_operands,
+        compile: r.chance(3, 4),
+        tower: false,
+    }];
+    let n_parses = 4;
+    let mut ths = Vec::new();
+    for tid in 0..threads {
+        let mut ops = Vec::new();
+        for i in 0..n_parses {
+            let kind = pool[(tid + i + round as usize) % 3];
+            let n = r.range(1, 3);
+            let text = crate::workload::gen_text(&mut r, kind, n);
+            ops.push(Op::Parse { kind, form: if (i + tid) % 2 == 0 { Form::Flat } else { Form::Deep }, text, compile: true, damaged: false });
+        }
+        ops.push(Op::Eval { j: 0, point: 5 + tid as u32 + round as u32, mode: (tid % 4) as u8, delta: 0 });
+        ops.push(Op::Convert { j: 0 });
+        ops.push(Op::Eval { j: 0, point: 9 + round as u32, mode: ((tid + 1) % 4) as u8, delta: 0 });
+        ops.push(Op::Parse { kind: sk, form, text: shared[0].text.clone(), compile: true, damaged: false });
+        ths.push(ops);
     }
+    (Workload { shared, threads: ths, faults: Vec::new() }, n_parses)
+}
+
+fn run_round(
+    w: Arc<Workload>,
+    n_prelude: usize,
+    late: bool,
+    sequential: bool,
+    label: &str,
+) -> (usize, usize, u64) {
     let published: Arc<OnceLock<Handles>> = Arc::new(OnceLock::new());
     if !late {
         let _ = published.set(run::parse_shared(&w));
@@ -187,7 +263,6 @@ pub fn cmd_plain(args: &[String], yield_every: &AtomicU32) -> i32 {
             .collect();
         joins.into_iter().map(|j| j.join().expect("thread body is panic-proof")).collect()
     };
-    yield_every.store(0, Ordering::Relaxed);
     let reference = run::reference(&w);
     let mut bad = 0;
     for (t, ops) in w.threads.iter().enumerate() {
@@ -197,7 +272,7 @@ pub fn cmd_plain(args: &[String], yield_every: &AtomicU32) -> i32 {
                 other => {
                     bad += 1;
                     println!(
-                        "MISMATCH oracle=O1 thread={t} op={i} kind={} op={op:?}\n  expected: {}\n  got:      {other:?}",
+                        "MISMATCH oracle=O1 {label} thread={t} op={i} kind={} op={op:?}\n  expected: {}\n  got:      {other:?}",
                         op.kind_name(),
                         reference[t][i]
                     );
@@ -210,17 +285,59 @@ pub fn cmd_plain(args: &[String], yield_every: &AtomicU32) -> i32 {
             if let Some(h) = h {
                 if let Err(m) = h.unchanged() {
                     bad += 1;
-                    println!("MISMATCH oracle=O2 shared[{j}] changed: {m}");
+                    println!("MISMATCH oracle=O2 {label} shared[{j}] changed: {m}");
                 }
             }
         }
     }
     let n_ops: usize = w.threads.iter().map(|t| t.len()).sum();
+    (bad, n_ops, run::digest_reference(&reference))
+}
+
+pub fn cmd_plain(args: &[String], yield_every: &AtomicU32) -> i32 {
+    let seed = arg_u64(args, "--scenario-seed", 1);
+    let threads = arg_u64(args, "--threads", 2) as usize;
+    let max_operands = arg_u64(args, "--max-operands", 6) as usize;
+    let max_ops = arg_u64(args, "--max-ops", 3) as usize;
+    let rounds = arg_u64(args, "--rounds", 1);
+    let late = arg_u64(args, "--late-publish", 1) != 0;
+    let sequential = arg(args, "--mode") == Some("sequential");
+    let kinds: Vec<Kind> = match arg(args, "--kinds") {
+        None => crate::kinds::ALL_KINDS.to_vec(),
+        Some(s) => s
+            .split(',')
+            .map(|k| crate::kinds::kind_from_name(k).unwrap_or_else(|| panic!("unknown kind {k}")))
+            .collect(),
+    };
+    let ye = arg_u64(args, "--yield-every", 0) as u32;
+    std::panic::set_hook(Box::new(|_| {}));
+    if arg_u64(args, "--light", 1) != 0 {
+        crate::kinds::LIGHT_OBS.store(true, Ordering::Relaxed);
+    }
+    let mut bad = 0;
+    let mut n_ops = 0;
+    let mut digest = crate::prng::Fnv::default();
+    for round in 0..rounds.max(1) {
+        let (w, n_prelude) = if round == 0 {
+            scenario(seed, threads, max_operands, max_ops, &kinds)
+        } else {
+            round_scenario(seed, round, threads)
+        };
+        if arg(args, "--print-workload").is_some() {
+            println!("{}", serde_json::to_string(&w).unwrap());
+        }
+        yield_every.store(ye, Ordering::Relaxed);
+        let (b, n, d) = run_round(Arc::new(w), n_prelude, late || round > 0, sequential, &format!("round={round}"));
+        yield_every.store(0, Ordering::Relaxed);
+        bad += b;
+        n_ops += n;
+        digest.u64(d);
+    }
     println!(
-        "PLAIN mode={} scenario_seed={seed} threads={} ops={n_ops} ref_digest={:016x} mismatches={bad}",
+        "PLAIN mode={} scenario_seed={seed} threads={threads} ops={n_ops} ref_digest={:016x} mismatches={bad} rounds={}",
         if sequential { "sequential" } else { "concurrent" },
-        w.threads.len(),
-        run::digest_reference(&reference)
+        digest.0,
+        rounds.max(1)
     );
     if bad > 0 {
         1
